@@ -166,8 +166,8 @@ def wrapper_random(run, prop, classes, n, all_rejects):
 
 def handoff_race(run, prop, classes, all_rejects):
     """Real-time schedules the bubble cannot run: a waiter gives up while unblock() holds the limiter mutex mid hand-off."""
-    out, _ = run.go("^(TestHandoffGiveUpRace|TestUnblockRace|TestArrivalRace)$", env={"VERIF_N": 6 if run.tier == "thorough" else 2}, timeout=600)
-    for fname, label in (("handoff_trace.ndjson", "handoff-race"), ("unblock_trace.ndjson", "unblock-race"), ("arrival_trace.ndjson", "arrival-race")):
+    out, _ = run.go("^(TestHandoffGiveUpRace|TestUnblockRace|TestArrivalRace|TestReleaseOrder)$", env={"VERIF_N": 6 if run.tier == "thorough" else 2}, timeout=600)
+    for fname, label in (("handoff_trace.ndjson", "handoff-race"), ("unblock_trace.ndjson", "unblock-race"), ("arrival_trace.ndjson", "arrival-race"), ("release_trace.ndjson", "release-order")):
         tp = os.path.join(out, fname)
         rejects, total = validate_sharded(run, "WrapperTrace", "Wrapper_trace.cfg", tp)
         run.events += total
@@ -323,7 +323,7 @@ def c13(run):
 def c19(run):
     th = run.tier == "thorough"
     names = ["b3f", "q3n", "b3l2"] + (["b4", "q4", "q4l", "q4t", "q3", "q3l"] if th else [])
-    wrapper_pipeline(run, "C19", names, [], {"gate", "starved", "lostwake"}, random_n=4000 if th else 800, extra_invs=LIVE, handoff=True,
+    wrapper_pipeline(run, "C19", names, [], {"gate", "starved", "lostwake", "early"}, random_n=4000 if th else 800, extra_invs=LIVE, handoff=True,
                      temporal=("WakeUp",), serve=True)
 
 
@@ -907,8 +907,8 @@ def c14(run):
     run.states += r.distinct
     run.transitions += r.generated
     cases = r.json_prints("CASE")
-    if len(cases) != 384:
-        raise Machinery("GrpcMC enumerated %d cases, expected the full product of 384" % len(cases))
+    if len(cases) != 1152:
+        raise Machinery("GrpcMC enumerated %d cases, expected the full product of 1152" % len(cases))
     indir = os.path.join(run.scratch, "in")
     os.makedirs(indir, exist_ok=True)
     vlib.write_ndjson(os.path.join(indir, "grpc_cases.ndjson"), cases)
